@@ -128,6 +128,10 @@ def worker_main(argv: List[str]) -> int:
     import faulthandler
 
     faulthandler.enable()
+    if os.environ.get("RPV_REACH_LOG"):
+        from rpv.monitors import reach
+
+        reach.start(os.path.join(rp2_src(), "rp2"), os.environ["RPV_REACH_LOG"])
     with scratch_dir(prefix=f"vp-{args.prop}-{args.shard}-") as scratch:
         os.chdir(scratch)
         ctx = ShardCtx(args.prop, args.tier, args.seed, args.shard, args.nshards, args.budget, scratch)
